@@ -445,3 +445,7 @@ def run(rep, progs, tier):
         name_rules(rep, prog, cfg)
         arg_rules(rep, prog, cfg)
         owners_rule(rep, prog, cfg)
+        # a request whose tail is lost to a short write loses its terminating LF / `command_list_end`: the next request is glued on
+        from .C05 import complete_write_rule
+        with rep.importing("C05.complete-write", "C07.lf-owners.complete-write"):
+            complete_write_rule(rep, prog, cfg)
